@@ -10,6 +10,16 @@ sys.path.insert(0, HERE)
 CHECKS = {}   # filled by vf/props modules that exist: id -> (category, text, note, technique, design_ref)
 
 TABLE = {
+    "C17": ("fault_enumeration",
+            "Normalised reports of true CLI subprocesses under private throw-away HOME directories are compared with the cold report for the model content in force, over cache histories (cold, warm companion, home cache with read-only data directory, stale internal_version, package-directory pickles, model edited / reverted / shadowed, in-process second load), crash points of the cache write (file cut at 0 / header / middle / last byte; real kills of the writer after k bytes of the pickle stream, both cache locations, arch and ISA cache) and races (8 processes released together or staggered on an empty cache); a driver records cache hit/miss/write events so that a 'warm' run without a hit is inconclusive. Evidence lists distinct crash points and race outcomes.",
+            "Trusted: the driver's pickle proxy and os.access patch (vf/cli.py); report normalisation strips only the timestamp and file-name lines.",
+            "runtime monitoring with fault injection: crash-point and race enumeration over cache histories, report equality oracle",
+            "C17"),
+    "C18": ("exploration",
+            "Random sequences of 6-20 analyses (both ISAs, several models, --fixed / -f / --ignore-unknown / --lines / default arch, shipped and generated kernels with unknown, memory-composed, read-modify-write, write-back and alternative-port instructions, guaranteed A..B..A revisits) run in one uninstrumented process; every report is compared with the report of a fresh process for the same request (a tenth of the fresh runs repeated for determinism). Violations are minimised to one predecessor and one line.",
+            "Trusted: vf/cli.py drivers; fresh-process reports as reference.",
+            "runtime monitoring: history-vs-fresh-process report equality over random call sequences",
+            "C18"),
     "C19": ("exploration",
             "The real CLI is run under monitors on what kernel_dg sees (clock polls, sleeps, os.kill, worker start/join, path generators, the created KernelDG, the process table afterwards) on recurrence kernels with exponentially many paths below and above the multi-process threshold, on kernel_x86_long_LCD.s and on ordinary kernels, for timeouts 0/1/2/120/-1: warning iff cut short, kills imply warning, every reported cycle verified against the doubled graph and against the untimed result where feasible, throughput/CP equal to the untimed analysis, no child left, and bounded progress (still enumerating at 3*timeout+30 s = violation; later post-processing only reported).",
             "Trusted: the stack inspection that distinguishes 'still searching' from post-processing; wall-clock margins only bound progress, they are never a verdict on their own (outer watchdog => inconclusive).",
